@@ -7,6 +7,7 @@
 #include <sys/mman.h>
 #include <sys/wait.h>
 #include <sys/syscall.h>
+#include <fcntl.h>
 
 #define MAXTEXT 24000
 typedef struct { int depth; int k[VM_MAXDEPTH]; } shape_t;
@@ -23,6 +24,17 @@ static int leafset[32], nleafset;
 
 /* ------------------------------------------------------------------ one run of a shape */
 typedef struct { long n; int ok, hits, probe_ok; unsigned changed; char err[120]; } result_t;
+#ifndef HNAME
+#define HNAME "h_c05"
+#endif
+#ifdef VM_C06
+/* C06 builds this file with its own per-element body (h_c06.c) and enumerates k = 0 (fault-free) as well */
+#define VM_K0 1
+static void c06_run_shape (const shape_t *sh, int variant, int leaf, long k, int mode, int measuring, result_t *res);
+static int c06_share_main (int argc, char **argv);
+#else
+#define VM_K0 0
+#endif
 
 static void first_diff (const char *a, const char *b, char *tag, size_t tl, char *msg, size_t ml) {
   /* transcripts are lists of notes; find the first differing position and the note it is in */
@@ -45,6 +57,10 @@ static void run_shape (const shape_t *sh, int variant, int leaf, long k, int mod
   char name[300];
   vm_snap s0, s1;
   memset (res, 0, sizeof *res);
+#ifdef VM_C06
+  c06_run_shape (sh, variant, leaf, k, mode, measuring, res);
+  return;
+#endif
   vm_shape_name (sh->k, sh->depth, name, sizeof name);
   snprintf (vm_ctx_desc, sizeof vm_ctx_desc, "shape %s leaf=%s %s k=%ld %s", name[0] ? name : "(leaf only)", vm_leaf_names[leaf],
             variant ? "under-catch" : "uncaught", k, mode == VM_INJ_THROW ? "throw" : "error");
@@ -161,7 +177,7 @@ static void decode (long idx, long *s, int *v, long *k, int *leaf) {
   }
   long lo = 0, hi = 2 * nshapes;          /* largest j with cum[j] <= idx */
   while (hi - lo > 1) { long mid = (lo + hi) / 2; if (cum[mid] <= idx) lo = mid; else hi = mid; }
-  *s = lo / 2; *v = (int) (lo % 2); *k = idx - cum[lo] + 1; *leaf = 0;
+  *s = lo / 2; *v = (int) (lo % 2); *k = idx - cum[lo] + 1 - VM_K0; *leaf = 0;
 }
 
 static void elem1 (long idx);
@@ -189,6 +205,12 @@ static void describe (long idx, char *buf, size_t len) {
             meas[s].n[v], inj_mode == VM_INJ_THROW ? "throw" : "error", v ? "run_c" : "run_u", text);
 }
 
+static int ref_broken;
+static void elem_ref_broken (long idx) {
+  (void) idx;
+  vx_fail ("C05:probe:does-not-finish-in-a-fresh-driver", "the probe evaluation (nested catch, load, destruct, verb, call_out) crashed or hung in a fresh driver (status 0x%x)", ref_broken);
+}
+
 /* ------------------------------------------------------------------ set-up */
 static void build_shapes (void) {
   long cap = 1; long p = 1;
@@ -205,11 +227,12 @@ static void build_shapes (void) {
   }
 }
 
-static void in_child (void (*fn) (void *), void *arg) {
+static int in_child (void (*fn) (void *), void *arg) {
   fflush (0);
   pid_t pid = fork ();
-  if (pid == 0) { fn (arg); fflush (0); syscall (SYS_exit_group, 0); }
-  int st; waitpid (pid, &st, 0);
+  if (pid == 0) { alarm (30); fn (arg); fflush (0); syscall (SYS_exit_group, 0); }
+  int st = 0; waitpid (pid, &st, 0);
+  return st;
 }
 
 static int ref_pipe[2];
@@ -224,7 +247,16 @@ static void meas_child (void *a) {
   snprintf (meas[m->s].err[m->v], sizeof meas[m->s].err[m->v], "%s", r.err);
 }
 static void meas_worker (int w, int W) {
-  for (long s = w; s < nshapes; s += W) for (int v = 0; v < 2; v++) { marg a = { s, v }; in_child (meas_child, &a); }
+  for (long s = w; s < nshapes; s += W) for (int v = 0; v < 2; v++) {
+    marg a = { s, v };
+    meas[s].ok[v] = -1;
+    int st = in_child (meas_child, &a);
+    if (meas[s].ok[v] == -1 || st) {
+      /* the fault-free run itself crashed or hung: keep the shape with one element, which will reproduce and report it */
+      meas[s].n[v] = 1; meas[s].ok[v] = 1; meas[s].hits[v] = 1; meas[s].probe_ok[v] = 1; meas[s].changed[v] = 0; meas[s].err[v][0] = 0;
+      fprintf (stderr, HNAME ": fault-free run of shape #%ld variant %d ended abnormally (status 0x%x)\n", s, v, st);
+    }
+  }
 }
 
 static void parse_set (const char *spec, int *out, int *n, int limit, int (*lookup) (const char *)) {
@@ -259,14 +291,29 @@ int main (int argc, char **argv) {
     /* leaf 0 is the ordinary leaf: not an error site */
     int j = 0; for (int i = 0; i < nleafset; i++) if (leafset[i] != 0) leafset[j++] = leafset[i]; nleafset = j; }
 
+#ifdef VM_C06
+  if (!strcmp (part, "share")) {
+    hx_boot (mud, "MaxEvaluationCost 100000000\nMaxArraySize 70000\nMaxMappingSize 70000\nMaxCallDepth 100\n", 0);
+    vm_preload_helpers ();
+    return c06_share_main (argc, argv);
+  }
+#endif
   hx_boot (mud, "MaxEvaluationCost 30000\n", 0);
   vx_count_name (0, "fault_raised"); vx_count_name (1, "caught_by_catch"); vx_count_name (2, "reached_driver");
   vx_count_name (3, "swallowed_by_safe_apply"); vx_count_name (4, "catch_points_checked");
   vm_preload_helpers ();
 
   if (pipe (ref_pipe)) return 2;
-  in_child (ref_child, 0);
-  if (read (ref_pipe[0], ref_probe, sizeof ref_probe - 1) <= 0) { fprintf (stderr, "no reference probe\n"); return 2; }
+  int ref_st = in_child (ref_child, 0);
+  fcntl (ref_pipe[0], F_SETFL, O_NONBLOCK);
+  if (ref_st || read (ref_pipe[0], ref_probe, sizeof ref_probe - 1) <= 0) {
+    /* the probe evaluation does not even finish in a fresh driver: report that as the one and only element */
+    fprintf (stderr, HNAME ": reference probe did not finish (status 0x%x)\n", ref_st);
+    ref_broken = ref_st ? ref_st : -1;
+    vm_shared_init ();
+    vx_set_enum (1, elem_ref_broken, 0);
+    return vx_run (argc, argv, 0);
+  }
   if (vx_opt ("show-probe", 0)) fprintf (stderr, "%s", ref_probe);
 
   const char *es = vx_opt ("elem", 0);
@@ -304,18 +351,18 @@ int main (int argc, char **argv) {
     vm_shape_name (shapes[s].k, shapes[s].depth, name, sizeof name);
     int good = m->ok[0] && m->ok[1] && m->hits[0] == 1 && m->hits[1] == 1 && m->n[0] > 0 && m->n[1] > 0;
     int clean = m->probe_ok[0] && m->probe_ok[1] && !m->err[0][0] && !m->err[1][0];
-    if (!good) { dropped++; if (vx_opt ("verbose", 0) || dropped <= 40) fprintf (stderr, "h_c05: dropped shape %s: ok=%d/%d hits=%d/%d n=%d/%d %s\n", name, m->ok[0], m->ok[1], m->hits[0], m->hits[1], m->n[0], m->n[1], m->err[0][0] ? m->err[0] : m->err[1]); continue; }
-    if (!clean) { broken++; fprintf (stderr, "h_c05: shape %s: %s | %s\n", name, m->err[0], m->err[1]); }
+    if (!good) { dropped++; if (vx_opt ("verbose", 0) || dropped <= 40) fprintf (stderr, HNAME ": dropped shape %s: ok=%d/%d hits=%d/%d n=%d/%d %s\n", name, m->ok[0], m->ok[1], m->hits[0], m->hits[1], m->n[0], m->n[1], m->err[0][0] ? m->err[0] : m->err[1]); continue; }
+    if (!clean) { broken++; fprintf (stderr, HNAME ": shape %s: %s | %s\n", name, m->err[0], m->err[1]); }
     if ((m->changed[0] | m->changed[1]) & VM_F_NOBJ) nquirk++;
     shapes[kept] = shapes[s]; meas[kept] = meas[s]; kept++;
   }
-  fprintf (stderr, "h_c05: %ld shapes (depth<=%d over %d kinds), %ld kept, %ld dropped (leaf not reached), %ld not clean, %ld whose fault-free run changes num_objects_this_thread\n", nshapes, maxdepth, nkindset, kept, dropped, broken, nquirk);
+  fprintf (stderr, HNAME ": %ld shapes (depth<=%d over %d kinds), %ld kept, %ld dropped (leaf not reached), %ld not clean, %ld whose fault-free run changes num_objects_this_thread\n", nshapes, maxdepth, nkindset, kept, dropped, broken, nquirk);
   nshapes = kept;
-  if (broken && !vx_opt ("allow-unclean", 0)) { fprintf (stderr, "h_c05: fault-free runs are not clean; fix the harness\n"); return 2; }
-  if (dropped * 20 > nshapes + dropped && !vx_opt ("allow-dropped", 0)) { fprintf (stderr, "h_c05: more than 5%% of the shapes never reach their leaf; fix the generator\n"); return 2; }
+  if (broken && !vx_opt ("allow-unclean", 0)) { fprintf (stderr, HNAME ": fault-free runs are not clean; fix the harness\n"); return 2; }
+  if (dropped * 20 > nshapes + dropped && !vx_opt ("allow-dropped", 0)) { fprintf (stderr, HNAME ": more than 5%% of the shapes never reach their leaf; fix the generator\n"); return 2; }
   cum = calloc ((size_t) (2 * nshapes + 1), sizeof *cum);
   long sumn = 0;
-  for (long s = 0; s < nshapes; s++) for (int v = 0; v < 2; v++) { cum[2 * s + v] = total; total += meas[s].n[v]; sumn += meas[s].n[v]; }
+  for (long s = 0; s < nshapes; s++) for (int v = 0; v < 2; v++) { cum[2 * s + v] = total; total += meas[s].n[v] + VM_K0; sumn += meas[s].n[v]; }
   cum[2 * nshapes] = total;
   if (part_sites) total = nshapes * 2L * nleafset;
   if (single) total = 1;
@@ -323,7 +370,7 @@ int main (int argc, char **argv) {
     for (long s = 0; s < nshapes; s++) { char name[300]; vm_shape_name (shapes[s].k, shapes[s].depth, name, sizeof name); printf ("%ld %s N=%d/%d\n", s, name, meas[s].n[0], meas[s].n[1]); }
     return 0;
   }
-  fprintf (stderr, "h_c05: part=%s mode=%s elements=%ld (sum of N over shapes x {uncaught,under-catch} = %ld)\n", part, inj_mode == VM_INJ_THROW ? "throw" : inj_mode == VM_INJ_ERROR ? "error" : "-", total, sumn);
+  fprintf (stderr, HNAME ": part=%s mode=%s elements=%ld (sum of N over shapes x {uncaught,under-catch} = %ld)\n", part, inj_mode == VM_INJ_THROW ? "throw" : inj_mode == VM_INJ_ERROR ? "error" : "-", total, sumn);
   vx_count_name (15, "failure_records_suppressed_as_duplicates");
   vm_shared_init ();
   vx_set_enum (total, elem, describe);
